@@ -141,15 +141,14 @@ class ConstrainedTangentialBox(Unit):
 UNITS = [ConstrainedTangentialBox()]
 
 
-# ---- tangential_byrd_omojokun (bound constraints only): the first loop clips every iterate (BOX is its invariant); the second loop
-# ---- rotates the step WITHOUT clipping, BOX there rests on the cap t_bd of the rotation angle - a nonlinear real-arithmetic argument
-# ---- (the scalar lemma is discharged by z3 in ms, but tying it to the masked vector code timed out at 10 min in the REAL model):
-# ---- that loop stays a frame-only cut and the bound clause with improve_tcg on stays with the bounded unit ---------------------------
+# ---- tangential_byrd_omojokun (bound constraints only): both loops under the BOX invariant.  Before the fix eaae3e7 the second loop
+# ---- rotated the step WITHOUT clipping: BOX then rested on the cap t_bd of the rotation angle, a nonlinear real-arithmetic argument
+# ---- that did not discharge (see TangentialRotationBox below, kept unregistered) - and that is false in floating point: the bounded
+# ---- unit found a step one ulp outside its bound (thorough tier, seed 1), which is what the fix repairs ------------------------------
 def optim_shadow_tbox():
     if "t" not in _SH:
-        from .geometry import FrameSpec
-        specs = {"t.loop0": BoxLoop("C15.tangential.tcg_loop"), "t.frame": FrameSpec()}
-        cuts = {("tangential_byrd_omojokun", 0): "t.loop0", ("tangential_byrd_omojokun", 1): ("t.frame", "frame")}
+        specs = {"t.loop0": BoxLoop("C15.tangential.tcg_loop"), "t.loop1": BoxLoop("C15.tangential.boundary_loop")}
+        cuts = {("tangential_byrd_omojokun", 0): "t.loop0", ("tangential_byrd_omojokun", 1): "t.loop1"}
         _SH["t"] = shadow("cobyqa.subsolvers.optim", specs=specs, cuts=cuts, expect_loops={"tangential_byrd_omojokun": 2})
     return _SH["t"]
 
@@ -160,13 +159,15 @@ class TangentialBox(Unit):
     fmodel = "ORDER"
     functions = [("cobyqa.subsolvers.optim", "tangential_byrd_omojokun")]
     parallel = True
+    path_budget = 1
     timeout_ms = 20000
     assumptions = ["_alpha_tr returns a finite step length >= 0 or raises ZeroDivisionError; hess_prod is any function of its argument",
-                   "only the truncated-CG loop is under the BOX invariant; with improve_tcg on, the boundary loop is havocked (frame-only "
-                   "cut) and nothing is claimed about the returned step here (bounded clause C15.tangential.step_within_bounds)"]
+                   "both loops are under the BOX invariant (since the fix eaae3e7 the rotated step is clipped like every other iterate); the "
+                   "number of sampled angles int((n_samples - 3) * t_bd + 3) is assumed defined and non-negative; NaN-freeness not proved"]
 
     def run(self, c):
         m = optim_shadow_tbox()
+        c.ghost["assume_sample_count_defined"] = True
         n = z3.Int(c.fresh_name("n"))
         c.assume(n >= 1)
         grad = vecs.fresh_vec("grad", n, finite=True)
@@ -190,16 +191,13 @@ class TangentialBox(Unit):
         m.__dict__["_alpha_tr"] = alpha_tr
         improve = bool(c.choose("improve_tcg", 2, ["on", "off"]) == 0)
         kind, res = call_expecting(c, "C08.tangential", lambda: m.tangential_byrd_omojokun(grad, hess_prod, xl0, xu0, delta, False, improve_tcg=improve), ())
-        if improve:
-            c.oblige("C15.tangential.tcg_phase_explored_with_boundary_phase_havocked", z3.BoolVal(True), props=["C15"])
-            return
         i = z3.Int(c.fresh_name("vcx_any"))
         lo = z3.If(xl0.at(i).r <= 0, xl0.at(i).r, 0)
         hi = z3.If(xu0.at(i).r >= 0, xu0.at(i).r, 0)
         e = res.at(i)
-        c.oblige("C15.tangential.returned_step_within_bounds_without_boundary_phase",
+        c.oblige("C15.tangential.returned_step_within_bounds",
                  z3.Implies(z3.And(0 <= i, i < n), z3.Or(e.nan, z3.And(lo <= e.r, e.r <= hi))),
-                 props=["C15", "C01"], note="the step returned by tangential_byrd_omojokun (improve_tcg off) leaves [min(xl,0), max(xu,0)]")
+                 props=["C15", "C01"], note="the step returned by tangential_byrd_omojokun leaves [min(xl,0), max(xu,0)]")
 
 
 UNITS.append(TangentialBox())
